@@ -107,22 +107,81 @@ func (m *mustPerf) instr(in ssa.Instruction) bool {
 		return false
 	}
 	if d, isDefer := in.(*ssa.Defer); isDefer {
-		// a registered defer whose body contains an X call (possibly guarded)
-		var fns []*ssa.Function
-		if sc := d.Call.StaticCallee(); sc != nil {
-			fns = append(fns, sc)
-		} else if mc, ok := d.Call.Value.(*ssa.MakeClosure); ok {
-			fns = append(fns, mc.Fn.(*ssa.Function))
-		}
+		// a registered defer performs X when its body performs X on every path, or
+		// performs X under a nil test of a variable that is the enclosing
+		// function's named error result (so that every failing return sets it).
 		if m.direct(c) {
 			return true
 		}
-		for _, f := range fns {
-			if m.contains(f) {
-				return true
+		if sc := d.Call.StaticCallee(); sc != nil {
+			return m.w.inModuleOrFB(sc) && m.fn(sc)
+		}
+		mc, ok := d.Call.Value.(*ssa.MakeClosure)
+		if !ok {
+			return false
+		}
+		df := mc.Fn.(*ssa.Function)
+		if m.fn(df) {
+			return true
+		}
+		if !m.contains(df) {
+			return false
+		}
+		// conditional: find the guarding nil tests in the closure and require each guard variable to be a named result
+		okGuard := false
+		for _, b := range df.Blocks {
+			x, nonNil, _, isTest := nilTest(b)
+			if !isTest {
+				continue
+			}
+			// X call under the non-nil edge?
+			hasX := false
+			for _, bb := range df.Blocks {
+				if !edgeDominates(b, nonNil, bb) {
+					continue
+				}
+				for _, in2 := range bb.Instrs {
+					if c2, ok := in2.(ssa.CallInstruction); ok && m.direct(c2) {
+						hasX = true
+					}
+				}
+			}
+			if !hasX {
+				continue
+			}
+			ld, ok := x.(*ssa.UnOp)
+			if !ok {
+				continue
+			}
+			fv, ok := ld.X.(*ssa.FreeVar)
+			if !ok {
+				continue
+			}
+			var bound ssa.Value
+			for i, v := range df.FreeVars {
+				if v == fv && i < len(mc.Bindings) {
+					bound = mc.Bindings[i]
+				}
+			}
+			al, ok := bound.(*ssa.Alloc)
+			if !ok {
+				continue
+			}
+			// named result: every Return of the parent loads its error operand from this alloc
+			parent := in.Parent()
+			idx := errResultIndex(parent)
+			all := idx >= 0
+			for _, rt := range returnsOf(parent) {
+				u, ok := rt.Results[idx].(*ssa.UnOp)
+				if !ok || u.X != ssa.Value(al) {
+					all = false
+				}
+			}
+			if all {
+				okGuard = true
 			}
 		}
-		return false
+		return okGuard
 	}
 	if m.direct(c) {
 		return true
